@@ -23,6 +23,9 @@ TECH["C20"]="rapid property-based testing of the emitted mock server: build/vet 
 TECH["C18"]="rapid property-based testing of emitted OpenAPI documents: independent YAML/JSON parsers, structural invariants, YAML-vs-JSON metamorphic equality"
 TECH["C19"]="rapid differential testing of two acceptance sets: reference buf.validate rule semantics vs Python jsonschema (2020-12) on boundary probes"
 TECH["C06"]="rapid property-based testing of emitted client/server traffic against the emitted OpenAPI document; oracle = Python jsonschema (2020-12) + undeclared-property walker"
+TECH["C03"]="rapid differential testing across the five generators' artefacts: concrete request lines of Go/TS clients, Go server routing, TS RouteDescriptors and OpenAPI operations must agree"
+TECH["C07"]="rapid property-based testing of wire values against the emitted TypeScript declarations with a structural inhabitation checker (no tsc offline)"
+TECH["C08"]="rapid property-based testing of cross-language calls: emitted TypeScript executed in Node 22 against emitted Go over loopback HTTP, round-trip oracle"
 TEXT={
  "C12":("Generated-input search: every rule x placement cell of the documented catalogue is injected into rapid-drawn valid schemas and judged at the process boundary of the real plugins; the converse is checked on every base schema. Exploration, not proof: cells are enumerated, surroundings sampled.","§5 C12"),
  "C14":("Differential property test over rapid-drawn schemas: byte identity of same-named files, plus behavioural equality of server-only and client-only builds on generated values. Exploration.","§5 C14"),
@@ -44,6 +47,9 @@ TEXT["C20"]=("Schemas are generated with generate_mock=true; the package must bu
 TEXT["C18"]=("Every emitted document of rapid-drawn schemas is parsed with parsers the plugin does not use and checked for the listed structural invariants under all four format settings; YAML and JSON renderings are compared as trees. Exploration.","§5 C18")
 TEXT["C19"]=("For each rule-carrying field probes at and around every bound are encoded with the reference model and judged both by the reference rule semantics and by jsonschema against the published property schema; any disagreement is a violation. Exploration with boundary-directed probes.","§5 C19")
 TEXT["C06"]=("Request bodies sent by the generated Go client, response bodies of the generated Go server (200 / 400 / default) and the path, query and header values as sent are validated with jsonschema against the schemas the service's OpenAPI document publishes for that operation, and walked for properties no subschema describes; the default value of every request/response type must satisfy its component schema. Exploration.","§5 C06")
+TEXT["C03"]=("For rapid-drawn route shapes every RPC is exercised with all URL-bound fields non-default; the Go client's and the TS client's concrete request lines, the Go server's routing decision, the TS server's route table and the OpenAPI operation are compared pairwise. Exploration.","§5 C03")
+TEXT["C07"]=("Values captured from the generated Go server, contract-form requests and the arguments the generated TS server hands to handlers are checked for structural membership in the types the emitted .ts files declare (parsed by a reader of the emitted subset); ts-client and ts-server declarations are compared. Exploration; type-checking proper is impossible offline.","§5 C07")
+TEXT["C08"]=("The emitted .ts modules are imported in Node 22 and driven through a long-lived driver: TS client -> Go server, Go client -> TS server and TS client -> TS server calls over loopback HTTP with drawn requests, responses and header options must deliver request and response unchanged. Exploration.","§5 C08")
 NOTE={
  "C12":"Trusted: schema generator + protodesc gate stand in for protoc; error text naming the offender is the 'names the offender' criterion.",
  "C14":"Trusted: protoc-gen-go, Go toolchain, protovalidate stand-in (not exercised by codecs).",
@@ -65,6 +71,9 @@ NOTE["C20"]="Trusted: as C13 for the build half; OpenAPI conformance of mock bod
 NOTE["C18"]="Trusted: go.yaml.in/yaml/v4 and encoding/json as independent parsers; descriptor-derived reachability; libopenapi's own model builder is not used as a second opinion (it is the library under test's dependency)."
 NOTE["C19"]="Trusted: Python jsonschema Draft 2020-12; the stand-in validator as R; float32 values equal to a bound are not probed (decimal shortest form is ambiguous at the boundary)."
 NOTE["C06"]="Trusted: Python jsonschema, independent OpenAPI parsing, reference model for the default-value converse; format keywords are annotations."
+NOTE["C03"]="Trusted: Node 22 type stripping to run the TS client and build the TS route table; independent OpenAPI parsing; agreement judged on concrete requests."
+NOTE["C07"]="Trusted: the declaration reader (unit-tested on the emitted subset); structural typing only; unreadable declarations give exit 2."
+NOTE["C08"]="Trusted: Node 22 fetch/http, 20-line template dispatcher in /verif/node/driver.mjs standing in for a user's router; values limited to what JavaScript numbers can carry."
 claimed=sorted(TECH)
 checks=[]
 for p in claimed:
@@ -77,6 +86,6 @@ m={"version":1,
  "engines":[{"name":"harness","path":"/verif/harness","serves_properties":claimed,"kind_free_text":"Go module: rapid v1.3.0 schema/value generators, plugin runner, workspace builder, inner engine linked into generated code, oracles"}],
  "checks":checks,
  "notes":"Known findings and fixed defects are listed in /verif/known_findings.jsonl; pinned replays under /verif/replays.",
- "not_applicable":[{"property_id":p,"reason":"check not built yet (work in progress, see DESIGN.md §9 order)"} for p in props if p not in claimed]}
+ "not_applicable":[{"property_id":p,"reason":"check not built yet"} for p in props if p not in claimed]}
 json.dump(m,open('/verif/MANIFEST.json','w'),indent=1)
 print("claimed",claimed)
